@@ -103,6 +103,15 @@ func (x *Exec) addCheck(st *State, fr *Frame, kind string, goal T, pos token.Pos
 
 // require emits a check and then assumes the goal on the continuing path.
 func (x *Exec) require(st *State, fr *Frame, kind string, goal T, pos token.Pos, detail string) {
+	if top := topFrame(fr); top.contract != nil && top.contract.Flags["recovers"] && strings.HasPrefix(kind, "nopanic/") && goal.S != "true" && x.dry == 0 {
+		// the function recovers from its own run-time panics: the failing case is a panicking path, not an obligation
+		ps := st.clone()
+		ps.assume(not(goal))
+		x.paths++
+		x.unwindWith(ps, fr, pos, detail)
+		st.assume(goal)
+		return
+	}
 	x.addCheck(st, fr, kind, goal, pos, detail)
 	st.assume(goal)
 }
